@@ -269,7 +269,61 @@ def to_indict(rng, T, style=None, order=None, with_params=None, options=None, pa
     return ind
 
 
+# unusual but valid names: a name that is another name plus characters of the derivative marker's alphabet
+# ("V" next to "V_d", "I" next to "Id" / "I_"), names ending in "_" or "d", and names that mean something in SymPy's full
+# namespace (the toolbox parses with a minimal namespace, so they are ordinary symbols)
+AWKWARD_PAIRS = [("V", "V_d"), ("g", "g_d"), ("I", "Id"), ("I", "I_"), ("x", "x_"), ("y", "yd"), ("h", "h__"), ("w", "w_d_")]
+AWKWARD_SINGLES = ["gamma", "beta", "zeta", "S", "Q", "N", "O", "pi_", "Abs_", "d", "_u", "dd"]
+
+
+def awkward_mapping(rng, names, params):
+    """a consistent injective renaming of some state variables / one parameter to unusual-but-valid names"""
+    taken = set(names) | set(PARAMS)
+    mapping = {}
+    names = list(names)
+    rng.shuffle(names)
+    if len(names) >= 2 and rng.random() < 0.7:
+        a, b = rng.choice(AWKWARD_PAIRS)
+        if a not in taken and b not in taken:
+            if rng.random() < 0.5:
+                a, b = b, a
+            mapping[names[0]], mapping[names[1]] = a, b
+            taken |= {a, b}
+    pool = [q for q in AWKWARD_SINGLES if q not in taken]
+    rng.shuffle(pool)
+    for nm in names + list(params)[:1]:
+        if nm not in mapping and pool and rng.random() < 0.5:
+            mapping[nm] = pool.pop()
+    return mapping
+
+
+def apply_mapping(obj, mapping):
+    import re
+    blob = json.dumps(obj)
+    for old, new in mapping.items():
+        blob = re.sub(r"(?<![A-Za-z0-9_])%s(?![A-Za-z0-9_])" % re.escape(old), "\x00" + new + "\x00", blob)
+    return json.loads(blob.replace("\x00", ""))
+
+
+def awkward_names(rng, g, p=0.25):
+    """with probability p rename (consistently, injectively) two or more state variables / one parameter of a generated
+    system to unusual-but-valid names; ground truth is renamed with it"""
+    import re
+    if rng.random() >= p:
+        return g
+    ind = g["indict"]
+    names = sorted({d["expression"].split("=")[0].strip().replace("'", "") for d in ind["dynamics"]})
+    blob = json.dumps(g)
+    params = sorted(q for q in PARAMS if re.search(r"(?<![A-Za-z0-9_])%s(?![A-Za-z0-9_])" % q, blob))
+    mapping = awkward_mapping(rng, names, params)
+    if not mapping:
+        return g
+    out = apply_mapping(g, mapping)
+    out["awkward_names"] = mapping
+    return out
+
+
 def gen_system(rng, shape=None, style=None, **kw):
     T = make_truth(rng, shape)
     ind = to_indict(rng, T, style=style, **kw)
-    return {"indict": ind, "truth": T.to_json(), "shape": T.shape}
+    return awkward_names(rng, {"indict": ind, "truth": T.to_json(), "shape": T.shape})
